@@ -785,14 +785,22 @@ func sizeClass(n string) string {
 // whose opening quote the source has no closing quote.
 func unterminatedString(src []byte, m *srcMap) bool {
 	l := lexer.NewFromString(string(src))
+	var prev token.TokenType
 	for i := 0; i < len(src)+4; i++ {
 		t := l.NextToken()
+		inner := prev == token.OPEN_LONG_STRING
+		prev = t.Type
 		switch t.Type {
 		case token.EOF:
 			return false
 		case token.PRAGMA, token.FASTLY_CONTROL:
 			return false
 		case token.STRING:
+			if inner {
+				// the payload of a long string (its position is the quote of the opening delimiter): long strings are
+				// judged by the longstr family
+				continue
+			}
 			// rune position -> the rest of the input behind the token start
 			if t.Line < 1 || t.Line > len(m.lines) || t.Position < 1 || t.Position > len(m.lines[t.Line-1]) || m.lines[t.Line-1][t.Position-1] != '"' {
 				continue // the inner token of a long string, or a position the other monitors judge
